@@ -234,7 +234,7 @@ func (e *env) memParallelLoadShape(q mQuery) bool {
 		return false
 	}
 	wanted := map[string]bool{}
-	for _, it := range q.Items {
+	for _, it := range q.operandItems() {
 		wanted[it.Field] = true
 	}
 	type memField struct {
@@ -304,7 +304,7 @@ func (e *env) seriesIDClasses(q mQuery) []string {
 	}
 	out = append(out, "series-ids:metric-in->=2-containers")
 	wanted := map[string]bool{}
-	for _, it := range q.Items {
+	for _, it := range q.operandItems() {
 		wanted[it.Field] = true
 	}
 	start, end, _ := e.mdl.plan(q)
